@@ -129,12 +129,15 @@ class IpcCommand:
     @staticmethod
     def _encode_ret(ret):
         """Encode exit status and any returned value to be sent back to the bash side."""
+        # the bash side reads exactly one line per reply
         if ret is None:
             return 0
         elif isinstance(ret, tuple):
             code, response = ret
+            response = " ".join(str(response).splitlines())
             return f"{code}\x07{response}"
         elif isinstance(ret, (int, str)):
+            ret = " ".join(str(ret).splitlines())
             return f"0\x07{ret}"
         raise TypeError(f"unsupported return status type: {type(ret)}")
 
@@ -471,7 +474,7 @@ class _InstallWrapper(IpcCommand):
                 sources = [path for path, _ in files_group]
                 command = ["install"] + self.opts.insoptions + sources + [dest]
                 ret, output = spawn.spawn_get_output(command, collect_fds=(2,))
-                if not ret:
+                if ret != 0:
                     raise IpcCommandError("\n".join(output), code=ret)
 
     @coroutine
@@ -507,7 +510,7 @@ class _InstallWrapper(IpcCommand):
             dirs = self._prefix_targets(dirs, files=False)
             command = ["install", "-d"] + self.opts.diroptions + list(dirs)
             ret, output = spawn.spawn_get_output(command, collect_fds=(2,))
-            if not ret:
+            if ret != 0:
                 raise IpcCommandError("\n".join(output), code=ret)
 
     @coroutine
